@@ -187,7 +187,7 @@ def gen_random(name, seed, base, symlinks=None, hostile=None):
 
 def pick_opts(s, rng, op=None):
     """choose the dedupe operation and its options; s.sem records their meaning"""
-    s.op = op or rng.choice(OPS)
+    s.op = op or rng.choice(OPS + ["remove", "link", "softlink", "move"])
     s.op_opts = []
     sem = {"n": None, "prio": [], "keep_name": [], "keep_path": [], "name": [], "path": [], "iso": [], "mlinks": False}
     if rng.chance(1, 3):
